@@ -219,6 +219,17 @@ func downloadFile(url, filepath string) error {
 	return err
 }
 
+// securePath joins an archive entry name to dest and rejects names that would
+// end up outside dest ("zip slip").
+func securePath(dest, name string) (string, error) {
+	root := filepath.Clean(dest)
+	target := filepath.Join(root, name)
+	if !strings.HasPrefix(target, root+string(os.PathSeparator)) {
+		return "", fmt.Errorf("%s: illegal file path", target)
+	}
+	return target, nil
+}
+
 func extractTarGz(tarGzFile, dest string) error {
 	file, err := os.Open(tarGzFile)
 	if err != nil {
@@ -239,9 +250,9 @@ func extractTarGz(tarGzFile, dest string) error {
 		if err != nil {
 			return err
 		}
-		target := filepath.Join(dest, header.Name)
-		if !strings.HasPrefix(target, filepath.Clean(dest)+string(os.PathSeparator)) {
-			return fmt.Errorf("%s: illegal file path", target)
+		target, err := securePath(dest, header.Name)
+		if err != nil {
+			return err
 		}
 		switch header.Typeflag {
 		case tar.TypeDir:
@@ -279,7 +290,10 @@ func extractZip(zipFile, dest string) error {
 	}
 	defer r.Close()
 	decompress := func(file *zip.File) error {
-		path := filepath.Join(dest, file.Name)
+		path, err := securePath(dest, file.Name)
+		if err != nil {
+			return err
+		}
 
 		if file.FileInfo().IsDir() {
 			return os.MkdirAll(path, 0700)
